@@ -32,7 +32,7 @@ PLAN = {
                                              # shared dead-letter targets: fan-in of two sources, self-loop
                                              ("BFS_DLFan", 0, 0, 11, False),
                                              # the attempt budget changes while a pull waits (blocked-pull mode)
-                                             ("BFS_BlockedDL", 0, 0, 9, False)]},
+                                             ("BFS_BlockedDL", 0, 0, 9, False), ("BFS_AckNack", 0, 0, 7, False)]},
     "C12": {"mc": ["MC_Names"], "gen": [("Gen_Names", 300, 6000, 32, False),
                                        # every short history of deleting / re-creating one topic name under a surviving subscription
                                        ("BFS_RecreateTopic", 0, 0, 6, False)]},
@@ -58,7 +58,9 @@ PLAN = {
                                          # every short history around the three dead-letter paths (pull-time, nack, sweep)
                                          ("BFS_DL", 0, 0, 8, False),
                                          # every short history of pulls / out-of-order acks / snapshots / seeks to them on one subscription
-                                         ("BFS_SnapOne", 0, 0, 7, False)],
+                                         ("BFS_SnapOne", 0, 0, 7, False),
+                                         # every short history of pulls and one-request ack + nack operations (one transaction)
+                                         ("BFS_AckNack", 0, 0, 7, False)],
             "fault": ["fail", "cancel"]},
 }
 
